@@ -3,7 +3,7 @@
    finds (Spec/RegexOrder.v) - so the match `find` reports at a start offset is the one such an engine reports. *)
 From Model Require Import Gen Engine.
 From Spec Require Import Sem FindSpec Lang RegexSpec RegexLang RegexOrder.
-From Proofs Require Import RefineBase RefineRange LangAtoms LangSound RegexLangSound.
+From Proofs Require Import RefineBase RefineRange Total LangAtoms LangSound RegexLangSound RegexFind RegexOrderFun.
 From Coq Require Import Lia.
 Local Open Scope nat_scope.
 
@@ -28,7 +28,6 @@ Section OrderSound.
 Variable text : bytes.
 Variable start : nat.
 Variable defs : nat -> option (rx * pstmts).
-Hypothesis Hdefs : forall t b p, defs t = Some (b, p) -> p = PNil /\ pure b.
 
 Notation T := (length text).
 Notation outs := (Sem.outs text start defs).
@@ -190,89 +189,143 @@ Proof.
 Qed.
 
 
-Lemma good_advances a c : good defs c (ra_lang a) -> (forall w, ra_lang a w -> w <> []) ->
+
+(* ---- ^ and $ ---- *)
+Lemma read2 p : read text p 2 = match nth_error text p, nth_error text (p + 1) with Some a, Some b => [a; b] | _, _ => [] end.
+Proof.
+  unfold read. cbn [Nat.eqb]. destruct (Nat.ltb_spec T (p + 2)) as [H|H].
+  - assert (E : nth_error text (p + 1) = None) by (apply nth_error_None; lia). rewrite E. destruct (nth_error text p); reflexivity.
+  - unfold sub. replace (p + 2 - p) with 2 by lia.
+    assert (Hl : length (skipn p text) = T - p) by apply skipn_length.
+    assert (Hn : forall k, nth_error text (p + k) = nth_error (skipn p text) k).
+    { intros k. rewrite <- (firstn_skipn p text) at 1. rewrite nth_error_app2; rewrite firstn_length; [|lia]. f_equal. lia. }
+    rewrite <- (Nat.add_0_r p) at 2. rewrite !Hn.
+    destruct (skipn p text) as [|a [|b r]]; cbn [length] in Hl; try lia. reflexivity.
+Qed.
+
+Lemma bytes_eqb1 a b : bytes_eqb [a] [b] = N.eqb a b.
+Proof. cbn. apply Bool.andb_true_r. Qed.
+
+Lemma bol_outs s : map fst (atom_outs text (IMatchClass false CLineStart) s) = if at_bol text (fst s) then [fst s] else [].
+Proof.
+  unfold atom_outs, at_bol. cbn [atom_pos match_class]. unfold match_linestart, xorb_not, rd.
+  destruct (Nat.eqb (fst s) 0); [reflexivity|]. cbn [orb]. rewrite read1, xorb_false_r.
+  destruct (nth_error text (fst s - 1)) as [b|]; [|reflexivity]. rewrite bytes_eqb1. unfold nl. destruct (N.eqb b 10); reflexivity.
+Qed.
+
+Lemma eol_outs s : map fst (atom_outs text (IMatchClass false CLineEnd) s) = if at_eol text (fst s) then [fst s] else [].
+Proof.
+  unfold atom_outs, at_eol. cbn [atom_pos match_class]. unfold match_lineend, at_line_end, xorb_not, rd. rewrite read1, read2, xorb_false_r.
+  destruct (nth_error text (fst s)) as [b|] eqn:Eb.
+  - rewrite bytes_eqb1. unfold nl, cr.
+    assert (Hlt : fst s < T) by (apply nth_error_Some; congruence).
+    assert (Hne : Nat.eqb (fst s) T = false) by (apply Nat.eqb_neq; lia).
+    unfold size. rewrite Hne.
+    destruct (nth_error text (fst s + 1)) as [b2|]; cbn [bytes_eqb orb andb].
+    + destruct (N.eqb b 10), (N.eqb b 13), (N.eqb b2 10); reflexivity.
+    + destruct (N.eqb b 10), (N.eqb b 13); reflexivity.
+  - unfold size. cbn [bytes_eqb orb]. destruct (Nat.eqb (fst s) T); reflexivity.
+Qed.
+
+(* ---- the theorem ---- *)
+Definition okr (r : rx) (O : nat -> list nat -> Prop) : Prop := ordered r O /\ simple r /\ flat r.
+
+Lemma okr_atom i f (O : nat -> list nat -> Prop) : one_byte i f -> (forall p, O p (step1 text f p)) -> okr (XAtom i) O.
+Proof. intros H1 HO. split; [eapply ordered_atom; eauto|split; exact I]. Qed.
+
+Lemma simple_fold copies tl : Forall simple copies -> simple tl -> simple (fold_right XSeq tl copies).
+Proof. induction 1; cbn [fold_right simple]; auto. Qed.
+
+Lemma consuming a c : nn_atom a = true -> ordered c (ra_ord text a) ->
   forall s la, fst s <= T -> outs c s la -> Forall (fun q : st => fst s < fst q) la.
 Proof.
-  intros [Hp Hw] Hne s la Hs Ho. apply Forall_forall. intros [p' e] Hin.
-  destruct (proj1 (outs_lang_lemma text start defs Hdefs c s la Ho Hp Hs p') (ex_intro _ e Hin)) as (H1 & H2 & HL).
-  apply Hw in HL. apply Hne in HL. cbn [fst]. destruct (Nat.eq_dec p' (fst s)) as [E|E]; [|lia].
-  subst p'. rewrite sub_same in HL. congruence.
+  intros Hn Hord s la Hs Ho. pose proof (Hord s la Hs Ho) as H. apply (proj1 (ord_advances_mut text)) in H. destruct H as [_ H]. specialize (H Hn).
+  rewrite Forall_map in H. exact H.
 Qed.
 
 Ltac step H x gx E := lazymatch type of H with gbind ?t _ = _ => destruct t as [[x gx]|] eqn:E; [|discriminate]; cbn [gbind] in H end.
 
 Theorem regex_order_mut :
-  (forall a, reg_atom a -> ord_atom a -> forall g off gs r gs', resolve_expr (fst (tr_atom a g)) off gs = GOk (r, gs') -> ordered r (ra_ord text a)) /\
-  (forall l, reg_lit l -> ord_lit l -> forall g off gs r gs', resolve_expr (fst (tr_lit l g)) off gs = GOk (r, gs') -> ordered r (rl_ord text l)) /\
-  (forall p, reg_pat p -> ord_pat p -> forall g off gs r gs', resolve_expr (fst (tr_pat p g)) off gs = GOk (r, gs') -> ordered r (rp_ord text p)) /\
-  (forall d, reg_disj d -> ord_disj d -> forall g off gs r gs', resolve_exprs (fst (tr_disj d g)) off gs = GOk (r, gs') -> ordered r (rd_ord text d)).
+  (forall a, oreg_atom a -> forall g off gs r gs', resolve_expr (fst (tr_atom a g)) off gs = GOk (r, gs') -> okr r (ra_ord text a)) /\
+  (forall l, oreg_lit l -> forall g off gs r gs', resolve_expr (fst (tr_lit l g)) off gs = GOk (r, gs') -> okr r (rl_ord text l)) /\
+  (forall p, oreg_pat p -> forall g off gs r gs', resolve_expr (fst (tr_pat p g)) off gs = GOk (r, gs') -> okr r (rp_ord text p)) /\
+  (forall d, oreg_disj d -> forall g off gs r gs', resolve_exprs (fst (tr_disj d g)) off gs = GOk (r, gs') -> okr r (rd_ord text d)).
 Proof.
   apply regex_mutind.
   - (* RChar *)
-    intros c Hc _ g off gs r gs' H. cbn in H. cbn [reg_atom] in Hc. rewrite (encode_ascii c Hc) in H. inversion H; subst.
-    apply (ordered_atom _ _ _ (lit1_one c)). intros p. constructor.
+    intros c Hc g off gs r gs' H. cbn in H. cbn [oreg_atom] in Hc. rewrite (encode_ascii c Hc) in H. inversion H; subst.
+    apply (okr_atom _ _ _ (lit1_one c)). intros p. constructor.
   - (* REscChar *)
-    intros c Hc _ g off gs r gs' H. cbn in H. cbn [reg_atom] in Hc. rewrite (encode_ascii c Hc) in H. inversion H; subst.
-    apply (ordered_atom _ _ _ (lit1_one c)). intros p. constructor.
+    intros c Hc g off gs r gs' H. cbn in H. cbn [oreg_atom] in Hc. rewrite (encode_ascii c Hc) in H. inversion H; subst.
+    apply (okr_atom _ _ _ (lit1_one c)). intros p. constructor.
   - (* RDot *)
-    intros _ _ g off gs r gs' H. cbn in H. inversion H; subst.
-    apply (ordered_atom _ _ _ (notlit1_one false 10%N)). intros p.
-    rewrite (step1_ext text _ dot_ok p); [constructor|]. intros b. unfold dot_ok, compare_bytes. cbn. rewrite Bool.andb_true_r, (N.eqb_sym b 10). reflexivity.
+    intros _ g off gs r gs' H. cbn in H. inversion H; subst.
+    apply (okr_atom _ _ _ (notlit1_one false 10%N)). intros p.
+    rewrite (step1_ext text _ (dot_ok) p); [constructor|]. intros b. unfold dot_ok, compare_bytes. cbn. rewrite Bool.andb_true_r, (N.eqb_sym b 10). reflexivity.
   - (* RCls *)
-    intros neg space _ _ g off gs r gs' H. cbn in H. inversion H; subst. destruct space.
-    + apply (ordered_atom _ _ _ (whitespace_one neg)). intros p.
+    intros neg space _ g off gs r gs' H. cbn in H. inversion H; subst. destruct space.
+    + apply (okr_atom _ _ _ (whitespace_one neg)). intros p.
       rewrite (step1_ext text _ (fun b => xorb (cls_has true b) neg) p); [constructor|]. intros b. f_equal. unfold cls_has. cbn.
       rewrite !Bool.andb_true_r, Bool.orb_false_r, !Bool.orb_assoc. reflexivity.
-    + apply (ordered_atom _ _ _ (digit_one neg)). intros p.
+    + apply (okr_atom _ _ _ (digit_one neg)). intros p.
       rewrite (step1_ext text _ (fun b => xorb (cls_has false b) neg) p); [constructor|]. intros b. rewrite !bytes_leb1. reflexivity.
   - (* RBracket *)
-    intros neg items [Hne Hall] Hord g off gs r gs' H. cbn [tr_atom fst resolve_expr] in H.
+    intros neg items (Hne & Hall & Hord) g off gs r gs' H. cbn [tr_atom fst resolve_expr] in H.
     destruct neg; inversion H; subst; clear H.
     + (* [^...] *)
-      rewrite (list_maxsize_ascii items Hne Hall). intros s l Hs Ho. apply outs_notin_inv in Ho. subst l.
+      rewrite (list_maxsize_ascii items Hne Hall). split; [|split; [cbn; lia|exact I]]. intros s l Hs Ho. apply outs_notin_inv in Ho. subst l.
       unfold notin_outs. rewrite (notin_exists items (fst s) Hall). change (Z.to_nat 1) with 1. rewrite consume1.
       assert (E : forall l0, l0 = step1 text (fun b => xorb (existsb (item_has b) items) true) (fst s) -> ra_ord text (RBracket true items) (fst s) l0)
         by (intros l0 ->; constructor).
       apply E. unfold step1. destruct (nth_error text (fst s)) as [b|]; [|reflexivity].
       rewrite xorb_true_r. destruct (existsb (item_has b) items); reflexivity.
     + (* [...] *)
-      intros s l Hs Ho. apply outs_in_inv in Ho. subst l. rewrite (in_outs_hits items s Hall).
+      split; [|split; exact I]. intros s l Hs Ho. apply outs_in_inv in Ho. subst l. rewrite (in_outs_hits items s Hall).
       assert (E : forall l0, l0 = step1 text (fun b => xorb (existsb (item_has b) items) false) (fst s) -> ra_ord text (RBracket false items) (fst s) l0)
         by (intros l0 ->; constructor).
       apply E. unfold step1. destruct (nth_error text (fst s)) as [b|]; [|reflexivity].
-      rewrite xorb_false_r, hits_exists. cbn [ord_atom] in Hord. specialize (Hord b).
+      rewrite xorb_false_r, hits_exists. specialize (Hord eq_refl b).
       destruct (hits b items) as [|[|n]]; [reflexivity|reflexivity|lia].
   - (* RBackNum *) intros d [].
   - (* RBackNum2 *) intros d1 d2 [].
   - (* RBackName *) intros id [].
   - (* RGroup *)
-    intros k body IH Hreg Hord g off gs r gs' H. cbn [reg_atom ord_atom] in Hreg, Hord.
-    assert (Hgrp : forall rb, ordered rb (rd_ord text body) -> ordered rb (ra_ord text (RGroup k body))).
-    { intros rb Hb s l Hs Ho. constructor. apply Hb; assumption. }
+    intros k body IH Hreg g off gs r gs' H. cbn [oreg_atom] in Hreg.
+    assert (Hgrp : forall rb, okr rb (rd_ord text body) -> okr rb (ra_ord text (RGroup k body))).
+    { intros rb (Hb & Hs1 & Hf1). split; [|split; assumption]. intros s l Hs Ho. constructor. apply Hb; assumption. }
+    assert (Hdec : forall n rb, okr rb (rd_ord text body) -> okr (XSeq (XDec n rb) XEps) (ra_ord text (RGroup k body))).
+    { intros n rb (Hb & Hs1 & Hf1). split; [|split; cbn; auto]. intros s l Hs Ho. constructor. revert s l Hs Ho. apply ordered_dec. exact Hb. }
     destruct k as [| |id]; cbn [tr_atom] in H.
     + destruct (tr_disj body (S g)) as [es g1] eqn:Et. cbn [fst resolve_expr resolve_lit resolve_exprs] in H.
       step H a ga Ea. inversion H; subst. clear H.
       step Ea rb g2 Erb. destruct (alookup (gvars g2) _); [discriminate|]. inversion Ea; subst.
-      apply ordered_seq_eps. apply Hgrp. intros s l Hs Ho. apply outs_dec_inv in Ho. destruct Ho as (la & -> & Hb). rewrite map_fst_bind.
-      specialize (IH Hreg Hord (S g) (off + 1) gs rb g2). rewrite Et in IH. apply (IH Erb); assumption.
+      apply Hdec. specialize (IH Hreg (S g) (off + 1) gs rb g2). rewrite Et in IH. apply IH. exact Erb.
     + destruct (tr_disj body g) as [es g1] eqn:Et. cbn [fst resolve_expr resolve_lit] in H.
-      apply Hgrp. specialize (IH Hreg Hord g off gs r gs'). rewrite Et in IH. apply IH. exact H.
+      apply Hgrp. specialize (IH Hreg g off gs r gs'). rewrite Et in IH. apply IH. exact H.
     + destruct (tr_disj body g) as [es g1] eqn:Et. cbn [fst resolve_expr resolve_lit resolve_exprs] in H.
       step H a ga Ea. inversion H; subst. clear H.
       step Ea rb g2 Erb. destruct (alookup (gvars g2) _); [discriminate|]. inversion Ea; subst.
-      apply ordered_seq_eps. apply Hgrp. intros s l Hs Ho. apply outs_dec_inv in Ho. destruct Ho as (la & -> & Hb). rewrite map_fst_bind.
-      specialize (IH Hreg Hord g (off + 1) gs rb g2). rewrite Et in IH. apply (IH Erb); assumption.
-  - (* RBol *) intros [].
-  - (* REol *) intros [].
+      apply Hdec. specialize (IH Hreg g (off + 1) gs rb g2). rewrite Et in IH. apply IH. exact Erb.
+  - (* RBol *)
+    intros _ g off gs r gs' H. cbn in H. inversion H; subst. split; [|split; exact I].
+    intros s l Hs Ho. apply outs_atom_inv in Ho. subst l. rewrite bol_outs. constructor.
+  - (* REol *)
+    intros _ g off gs r gs' H. cbn in H. inversion H; subst. split; [|split; exact I].
+    intros s l Hs Ho. apply outs_atom_inv in Ho. subst l. rewrite eol_outs. constructor.
   - (* RQ *)
-    intros a IH q Hreg Hord g off gs r gs' H. cbn [tr_lit] in H. destruct (tr_atom a g) as [b g1] eqn:Et. cbn [fst] in H.
-    destruct q as [[qq lz]|]; cbn [reg_lit ord_lit apply_q] in *.
-    + destruct Hreg as (Ha & Hne & mn & mx & Hq & Hmx). rewrite Hq in H.
+    intros a IH q Hreg g off gs r gs' H. cbn [tr_lit] in H. destruct (tr_atom a g) as [b g1] eqn:Et. cbn [fst] in H.
+    destruct q as [[qq lz]|]; cbn [oreg_lit apply_q] in *.
+    + destruct Hreg as (Ha & Hnn & mn & mx & Hq & Hmx). rewrite Hq in H.
+      assert (Hres : forall c, from_body b c -> okr c (ra_ord text a)).
+      { intros c (cur & gx & gy & Hc). specialize (IH Ha g cur gx c gy). rewrite Et in IH. apply IH. exact Hc. }
       assert (Hbody : forall c, from_body b c -> body_ok a c).
-      { intros c (cur & gx & gy & Hc). split.
-        - specialize (IH Ha Hord g cur gx c gy). rewrite Et in IH. apply IH. exact Hc.
-        - apply (good_advances a); [|exact Hne]. pose proof (proj1 (regex_lang_mut defs) a Ha g cur gx c gy) as G. rewrite Et in G. apply G. exact Hc. }
+      { intros c Hc. destruct (Hres c Hc) as (Ho & _ & _). split; [exact Ho|apply (consuming a c Hnn Ho)]. }
       destruct (resolve_loop_form _ _ _ _ _ _ _ _ H) as (copies & tl & -> & Hlen & Hcopies & Htl).
+      assert (Hcs : Forall simple copies /\ Forall flat copies).
+      { split; apply Forall_forall; intros c Hc; rewrite Forall_forall in Hcopies; destruct (Hres c (Hcopies c Hc)) as (_ & ? & ?); assumption. }
+      split; [|split].
+      2:{ apply simple_fold; [tauto|]. destruct Htl as [[_ ->]|(_ & id & c & Hc & ->)]; [exact I|]. cbn [simple]. split; [reflexivity|]. destruct (Hres c Hc) as (_ & ? & _). assumption. }
+      2:{ apply flat_fold; [tauto|]. destruct Htl as [[_ ->]|(_ & id & c & Hc & ->)]; [exact I|]. cbn [flat]. destruct (Hres c Hc) as (_ & _ & ?). assumption. }
       intros s l Hs Ho. apply (ro_quant text a qq lz mn mx (fst s) _ Hq).
       apply (copies_ord a mn mx lz tl) with (copies := copies); [| |lia|exact Hs|exact Ho].
       * (* the tail *)
@@ -292,31 +345,35 @@ Proof.
            apply (tail_ord a mn mx lz id newmax c (Hbody c Hc) Hwithin (S (T - fst s0))); [lia|exact Hs0| |exact Ho0].
            rewrite Nat.add_0_r. unfold within. destruct Hmx as [->|Hmx']; [reflexivity|]. apply Bool.orb_true_iff. right. apply Z.leb_le. lia.
       * apply Forall_forall. intros c Hc. rewrite Forall_forall in Hcopies. apply Hbody. apply Hcopies. exact Hc.
-    + specialize (IH Hreg Hord g off gs r gs'). rewrite Et in IH. intros s l Hs Ho. constructor. apply (IH H); assumption.
+    + specialize (IH Hreg g off gs r gs'). rewrite Et in IH. destruct (IH H) as (Ho & Hs1 & Hf1). split; [|split; assumption].
+      intros s l Hs Hx. constructor. apply Ho; assumption.
   - (* POne *)
-    intros l IH Hreg Hord g off gs r gs' H. cbn [tr_pat reg_pat ord_pat] in *. intros s l0 Hs Ho. constructor. apply (IH Hreg Hord g off gs r gs' H); assumption.
+    intros l IH Hreg g off gs r gs' H. cbn [tr_pat oreg_pat] in *. destruct (IH Hreg g off gs r gs' H) as (Ho & Hs1 & Hf1). split; [|split; assumption].
+    intros s l0 Hs Hx. constructor. apply Ho; assumption.
   - (* PAlt *)
-    intros l IHl p IHp [Hl Hp] [Hol Hop] g off gs r gs' H. cbn [tr_pat] in H.
+    intros l IHl p IHp [Hl Hp] g off gs r gs' H. cbn [tr_pat] in H.
     destruct (tr_lit l g) as [s0 g1] eqn:El. destruct (tr_pat p g1) as [e g2] eqn:Ep. cbn [fst resolve_expr resolve_lit resolve_exprs] in H.
     step H a ga Ea. step H b gb Eb. inversion H; subst. clear H.
     step Ea rs g3 Ers.
-    specialize (IHl Hl Hol g (off + 1) gs rs g3). rewrite El in IHl. specialize (IHl Ers).
+    specialize (IHl Hl g (off + 1) gs rs g3). rewrite El in IHl. destruct (IHl Ers) as (Hol & Hsl & Hfl).
     inversion Ea; subst. clear Ea.
-    pose proof (IHp Hp Hop g1) as IHp'. rewrite Ep in IHp'.
+    pose proof (IHp Hp g1) as IHp'. rewrite Ep in IHp'. destruct (IHp' _ _ _ _ Eb) as (Hob & Hsb & Hfb).
+    split; [|split; cbn; auto].
     intros s l0 Hs Ho. apply outs_alt_inv in Ho. destruct Ho as (la & lb & -> & Ha & Hb). rewrite map_app. constructor.
-    + apply IHl; [exact Hs|apply outs_seq_eps; exact Ha].
-    + apply (IHp' _ _ _ _ Eb); assumption.
+    + apply Hol; [exact Hs|apply outs_seq_eps; exact Ha].
+    + apply Hob; assumption.
   - (* DNil *)
-    intros _ _ g off gs r gs' H. cbn in H. inversion H; subst. intros s l Hs Ho. apply outs_eps_inv in Ho. subst. constructor.
+    intros _ g off gs r gs' H. cbn in H. inversion H; subst. split; [|split; exact I]. intros s l Hs Ho. apply outs_eps_inv in Ho. subst. constructor.
   - (* DCons *)
-    intros p IHp d IHd [Hp Hd] [Hop Hod] g off gs r gs' H. cbn [tr_disj] in H.
+    intros p IHp d IHd [Hp Hd] g off gs r gs' H. cbn [tr_disj] in H.
     destruct (tr_pat p g) as [e g1] eqn:Ep. destruct (tr_disj d g1) as [es g2] eqn:Ed. cbn [fst resolve_exprs] in H.
     step H a ga Ea. step H b gb Eb. inversion H; subst. clear H.
-    specialize (IHp Hp Hop g off gs a ga). rewrite Ep in IHp.
-    pose proof (IHd Hd Hod g1) as IHd'. rewrite Ed in IHd'.
+    specialize (IHp Hp g off gs a ga). rewrite Ep in IHp. destruct (IHp Ea) as (Hoa & Hsa & Hfa).
+    pose proof (IHd Hd g1) as IHd'. rewrite Ed in IHd'. destruct (IHd' _ _ _ _ Eb) as (Hob & Hsb & Hfb).
+    split; [|split; cbn; auto].
     intros s l Hs Ho. apply outs_seq_inv in Ho. destruct Ho as (la & Ha & Hl).
-    apply ro_cons with (la := map fst la); [apply (IHp Ea); assumption|].
-    apply (ordered_each b (rd_ord text d) (rd_each text d) (IHd' _ _ _ _ Eb)); [constructor|intros; constructor; assumption| |exact Hl].
+    apply ro_cons with (la := map fst la); [apply Hoa; assumption|].
+    apply (ordered_each b (rd_ord text d) (rd_each text d) Hob); [constructor|intros; constructor; assumption| |exact Hl].
     eapply Forall_impl; [|exact (range_le a s la Ha Hs)]. intros q [_ Hq]. exact Hq.
 Qed.
 
